@@ -30,6 +30,18 @@ CLAIMED = {
             "Trusted: Lean kernel + Mathlib; that the KOV expression is a valid composition bound is cited, not proved; "
             "IEEE rounding not modelled (deviations beyond the property's slack near slack=1 are a listed known finding).",
             "§6 C05"),
+    "C17": ("Lean 4 proof: CMS calibration identity in both branches, call-site arguments, regularisation consistency, row "
+            "norms, perturbation shape + Vector interposition and optimiser-argument observation",
+            "Machine-checked: for the vector mechanism as coded, in both branches 0 < eps', 0 <= Delta and "
+            "eps' + 2 log(1 + c s/(alpha + n Delta)) = eps with scale 2s/eps' — exactly Chaudhuri-Monteleoni-Sarwate's rule "
+            "for curvature c s and Lambda = alpha/n; the call site passes c = 1/4, alpha = 1/C, s = sqrt(norm^2+1) with "
+            "intercept, the mechanism's Lambda equals the objective's l2 strength, each one-vs-rest problem gets eps/k and "
+            "k(eps/k) = eps, clipped and augmented rows respect the norms, noisy - clean = b.w/n + Delta |w|^2/2 with "
+            "gradient b/n + Delta w. Tied to the code by interposing Vector (arguments reaching it), evaluating the returned "
+            "objective/gradient at probe points, observing the arguments that reach the optimiser (row norms, l2 strength). "
+            "CMS Theorem 9 is cited; |b| ~ Gamma(d, 2s/eps') and the uniform direction are validated statistically.",
+            "Trusted: Lean kernel + Mathlib; sklearn's LinearModelLoss is taken as the clean objective; scipy/joblib.",
+            "§6 C17"),
     "C18": ("Lean 4 proof: bisection bracket invariant (any carrier) + spendable/maximal/antitone theorems over R + "
             "correspondence and spend-back experiment on the implementation",
             "Machine-checked: the returned epsilon is the midpoint of a bracket whose lower end the code's own test "
@@ -68,6 +80,53 @@ CLAIMED = {
             "listed open known findings and are exactly what the _partial theorems exclude.",
             "Trusted: Lean kernel + Mathlib; harness/contlaw.py; folded-law mean (infinite reflection sum) validated "
             "numerically only.", "§6 C19"),
+    "C03": ("Lean 4 proof: additivity/input-independence/linearity of every additive sampler as coded, rejection = first accepted "
+            "draw, law facts (threshold, uniform, exponential-of-uniform), CKS acceptance identity, staircase mixture, "
+            "post-processing + scripted-stream correspondence; unit-noise laws validated statistically at the DKW 1e-14 level",
+            "Machine-checked about the transcribed samplers: randomise x s - x is the same function of the stream for all x "
+            "and linear in the calibrated scale (Laplace, Gaussian, Uniform, Staircase, bounded-noise, discrete Gaussian, "
+            "Vector direction/norm); the batch-doubling rejection loops return the first accepted draw of the stream "
+            "(conditional law); Lebesgue-measure laws of a threshold comparison, of (2u-1)c and of -log(1-u); the CKS "
+            "acceptance identity (proposal x acceptance proportional to exp(-k^2/2 sigma^2)) and bernoulli_neg_exp's stop "
+            "law summing to e^-gamma; staircase segment/mixture density; truncation/folding/snapping are post-processing by "
+            "maps of the bounds only and inherit the inequality. PARTIAL: that the 4-uniform expression is standard "
+            "Laplace, (N1+N2)/sqrt2 normal, four Gamma(d/4) sum to Gamma(d), the sphere law, the composed CKS loop, Snapping's "
+            "and Bingham's released laws are validated statistically on every run (supporting evidence, not theorems). Tied "
+            "to the code by running every randomise on scripted streams against the driver (outputs and numbers of draws "
+            "consumed). Bingham's inverted acceptance ratio is a listed open finding (proved: bingham_accept_cex).",
+            "Trusted: Lean kernel + Mathlib; library sampler laws (normalvariate, gammavariate, numpy geometric); calibrated "
+            "scales of the root-finder mechanisms are read from the object (C02's subject).", "§6 C03"),
+    "C06": ("Lean 4 proof: non-interference of the release-plan DSL, instantiated for every tool and estimator plan + forced-"
+            "output two-dataset experiment on the implementation",
+            "Machine-checked: in a release plan data can reach a mechanism parameter, the continuation or the release only "
+            "through a mechanism input, so for every plan, every two datasets with agreeing probes and every forced output "
+            "sequence the configured calls and the release coincide (Plan.noninterference; no axioms) — instantiated for "
+            "every tool plan (mean/var/std/sum/nan-variants/count_nonzero/wrap_axis/histogram/histogramdd) and estimator plan "
+            "(StandardScaler, LinearRegression, PCA, LogisticRegression split probe-free; GaussianNB, KMeans, forest with "
+            "their occupancy probes listed). This is true by construction of the DSL; that the CODE follows the plans is the "
+            "trace correspondence of C07/C08, and the hyperproperty itself is tested on the implementation: two arbitrarily "
+            "different same-shape datasets with ALL randomise calls forced to identical values must give bit-identical call "
+            "schedules, mechanism parameters and releases (12 tools, 7 estimators, partial_fit batches, drifting KMeans "
+            "centres).",
+            "Trusted: Lean kernel; 'same shape' includes the group-occupancy pattern for GaussianNB/KMeans/forest (probes); "
+            "every data-dependent draw goes through randomise; data-independent randomness fixed by an integer seed.",
+            "§6 C06"),
+    "C08": ("Lean 4 proof: compositional privacy-loss calculus on release plans, per-estimator model_privloss, split identities "
+            "and sensitivity lemmas + trace correspondence with replayed outputs and direct loss accounting on the implementation",
+            "Machine-checked over R for every dataset, every single-record replacement and every forced-output sequence: "
+            "GaussianNB (<= eps, <= 2 eps on a label change), KMeans with _calc_iters/_split_epsilon as coded (<= 2 eps; <= eps "
+            "when the record stays in its cluster), LinearRegression with/without intercept and multi-target (<= eps), "
+            "StandardScaler (<= eps, list-level variance sensitivity as hypothesis), PCA (<= eps relative to the cited "
+            "eigenvalue/Bingham hypotheses); all epsilon-split identities; corner-product, square, shifted-square, squared-"
+            "deviation, group-change and count sensitivities; disjoint tree subsets and leaf counts; the pre-repair formulas "
+            "are proved to exceed the budget (regression witnesses). PARTIAL: forest (counting level), LogisticRegression "
+            "(split only; mechanism is C17), adaptive composition cited. Tied to the code by fitting each model for real with "
+            "recording and running the Lean plan on the same data with the recorded outputs forced (classes/counts exact, "
+            "parameters and inputs 1e-9); the property is checked directly on the implementation by pairing the invocations "
+            "of fits on neighbouring datasets under identical forced outputs.",
+            "Trusted: Lean kernel + Mathlib; cited: eigenvalue perturbation bound, Bingham's guarantee, adaptive composition; "
+            "numpy tie order in argsort (GaussianNB count repair) excludes a third of fits from the trace comparison.",
+            "§6 C08"),
     "C10": ("Lean 4 proof: clip helpers in bounds / identity on the domain / idempotent for the function as coded (any linear "
             "order) + exact helper correspondence and seeded end-to-end equality f(D) == f(clip D)",
             "Machine-checked: for the whole clip_to_bounds as coded (exact-equality fast path + per-feature path) and the 1-D "
